@@ -273,9 +273,11 @@ m("c08_default_lam_abs_equivalent", "C08", PU, """        return 1 + abs(v)""", 
 m("c08_ancilla_start_n_minus_1", "C08", PU, """        ancilla = self.num_binary_variables""", """        ancilla = max(self.num_binary_variables - 1, 0)""")
 m("c08_convert_solution_off_by_one", "C08", QB, """            for i in range(self.num_binary_variables)""", """            for i in range(max(self.num_binary_variables - 1, 0))""")
 m("c08_remove_ancilla_prefix", "C08", PB, """        return {k: v for k, v in solution.items() if str(k)[:3] != "__a"}""", """        return {k: v for k, v in solution.items() if str(k)[:2] != "__" and str(k)[:1] != "a"}""")
+# under C08's hypothesis (every weight > max f - min f) an infeasible assignment is strictly worse than the constrained optimum,
+# so dropping the validity filter cannot change what solve_bruteforce returns: near-equivalent
 m("c08_solve_ignores_validity", "C08", PM, """        return solve_pubo_bruteforce(self,
                                      all_solutions, self.is_solution_valid)[1]""", """        return solve_pubo_bruteforce(self,
-                                     all_solutions)[1]""")
+                                     all_solutions)[1]""", expect="maybe")
 # ---------------------------------------------------------------- C14
 m("c14_nbv_per_key", "C14", PM, """            for i in filter(lambda x: x not in self._variables, k):
                 self._variables.add(i)
